@@ -384,7 +384,7 @@ pub fn gen(tier: &str, rng: &mut Rng, emit: &mut Emit) {
         let ops = build(rng, &kinds, 40, 70);
         emit_ops(rng, emit, ops);
     }
-    if tier == "thorough" {
+    if tier == "thorough" && long_runs_affordable(emit) {
         let ops = (0..65_540).map(|_| { let f = rng.below(4); pcierc_op(rng, &[], f, None) }).collect();
         emit_ops(rng, emit, ops);
     } else if wants_long_runs(tier, emit) {
